@@ -250,7 +250,31 @@ func runC12(c *core.Ctx) {
 	// pointers) and zero-capacity slices; big and round Grow amounts
 	if c.Index%3 == 0 {
 		ok := false
-		switch (c.Index / 3) % 10 {
+		switch (c.Index / 3) % 12 {
+		case 10:
+			// an interface element type whose values include the nil interface
+			ok = typedSplice(c, "any(with nils)", func(i int) any {
+				switch i % 4 {
+				case 0:
+					return nil
+				case 1:
+					return i
+				case 2:
+					return fmt.Sprint("a", i)
+				}
+				return [2]int32{int32(i), 7}
+			})
+		case 11:
+			errs := map[int]error{}
+			ok = typedSplice(c, "error(with nils)", func(i int) error {
+				if i%2 == 0 {
+					return nil
+				}
+				if errs[i] == nil {
+					errs[i] = fmt.Errorf("e%d", i)
+				}
+				return errs[i]
+			})
 		case 7:
 			ok = typedSplice(c, "int8", func(i int) int8 { return int8(-(i%120 + 2)) }) // negative values: sign extension
 		case 8:
@@ -549,6 +573,25 @@ func typedSplice[T comparable](c *core.Ctx, tname string, val func(i int) T) boo
 			for i, v := range rp {
 				if v != fv {
 					return fail("Repeat:element", fmt.Sprintf("Repeat(v,%d): element %d is not v", n, i))
+				}
+			}
+			// the element type's zero value (a nil interface, a nil pointer, "", 0) is a value too
+			zf := mk(n, spare, 0)
+			var zr []T
+			if p, pv := core.Catch(func() { slices.Fill(zf, zero); zr = slices.Repeat(zero, n) }); p {
+				return fail("Fill:panic-on-zero-value", fmt.Sprintf("Fill/Repeat with the element type's zero value on length %d panicked: %v", n, pv))
+			}
+			if len(zr) != n {
+				return fail("Repeat:length", fmt.Sprintf("Repeat(zero value,%d) has length %d", n, len(zr)))
+			}
+			for i := range zf {
+				if zf[i] != zero || zr[i] != zero {
+					return fail("Fill:element", fmt.Sprintf("Fill/Repeat with the zero value on length %d: element %d is not the zero value", n, i))
+				}
+			}
+			for j, v := range zf[:cap(zf)][len(zf):] {
+				if v != val(900000+len(zf)+j) {
+					return fail("Fill:beyond-length", fmt.Sprintf("Fill(zero value) on length %d wrote beyond the slice", n))
 				}
 			}
 			c.Count("typed_concat_clone_fill_reverse_repeat", 1)
